@@ -652,7 +652,12 @@ class Executor:
                 rm = re.search(r"return: (bb\d+)", targets)
                 ret_bb = rm.group(1) if rm else None
                 callee, argtexts = parse_call(call)
-                args = [self._operand(fn, frame, parse_operand(a), st, subst) for a in argtexts]
+                args = []
+                for a in argtexts:
+                    if a.startswith(("copy ", "move ", "const ", "no_retag ")):
+                        args.append(self._operand(fn, frame, parse_operand(a), st, subst))
+                    else:
+                        args.append(Opaque("fn " + a))      # a function item passed by name (e.g. `Box::new`)
                 callee = apply_subst(callee, subst)
                 self.dest_type = None
                 if dest:
@@ -912,6 +917,13 @@ class Executor:
         if c == "()":
             return Unit()
         item = self.p.fns.get(c) or self.p.fns.get("incan_core::" + c)
+        if item is None:
+            pm = re.match(r"^(?:.*::)?(\w+)::promoted\[(\d+)\]$", c)
+            if pm:
+                suffix = f"::{pm.group(1)}::promoted[{pm.group(2)}]"
+                cands = [f for n, f in self.p.fns.items() if n.endswith(suffix) and getattr(f, "is_const", False)]
+                if len(cands) == 1:
+                    item = cands[0]
         if item is not None and getattr(item, "is_const", False):
             return self.eval_const_item(item)
         return Opaque("const " + c)
@@ -1235,6 +1247,15 @@ def intr_neg(ex, callee, args):
             ([neg(o)], "return", S("int", e.share(e.int_sort(), r)), None, [])]
 
 
+def _int_minmax(which):
+    def h(ex, callee, args):
+        e = ex.enc
+        a, b = args[0].term, args[1].term
+        c = e.icmp("Le" if which == "min" else "Ge", a, b)
+        return _ret(S("int", f"(ite {c} {a} {b})"))
+    return h
+
+
 def intr_abs(ex, callee, args):
     e = ex.enc
     x = args[0].term
@@ -1408,6 +1429,10 @@ NUMERIC_INTRINSICS = {
     _I + r"wrapping_mul$": _int_arith("Mul", True),
     _I + r"wrapping_neg$": intr_wrapping_neg,
     r"^<&?i64 as (std::ops::)?Neg>::neg$": intr_neg,
+    r"^<(usize|i64|u32|u64|isize) as (std::cmp::)?Ord>::min$": _int_minmax("min"),
+    r"^<(usize|i64|u32|u64|isize) as (std::cmp::)?Ord>::max$": _int_minmax("max"),
+    r"^(std|core)::cmp::min::<(usize|i64|u32|u64|isize)>$": _int_minmax("min"),
+    r"^(std|core)::cmp::max::<(usize|i64|u32|u64|isize)>$": _int_minmax("max"),
     _I + r"wrapping_div$": intr_wrapping_div,
     _I + r"(wrapping_)?abs$": intr_abs,
     _I + r"signum$": intr_signum,
